@@ -6,5 +6,6 @@ pub mod c06;
 pub mod c07;
 pub mod c08;
 pub mod c09;
+pub mod c11;
 pub mod c15;
 pub mod c20;
